@@ -108,7 +108,10 @@ def kani_cmd(ob, target_dir, playback=False):
 
 def resolve_unwindset(ob, target_dir, env, log_prefix):
     """Per-loop bounds: codegen only, list loops with cbmc --show-loops, match rules."""
-    cmd = kani_cmd(ob, target_dir) + ["--only-codegen"]
+    cmd = kani_cmd(ob, target_dir)
+    if "--cbmc-args" in cmd:
+        cmd = cmd[:cmd.index("--cbmc-args")]
+    cmd += ["--only-codegen"]
     rc, to, _ = _run(cmd, env, HARNESS_DIR, 600, 8, log_prefix + ".codegen.log")
     if rc != 0:
         return None, "codegen failed (rc=%s)" % rc
@@ -158,7 +161,10 @@ def run_obligation(ob, slot, playback=False):
         if pairs:
             if "unstable-options" not in cmd:
                 cmd += ["-Z", "unstable-options"]
-            cmd += ["--cbmc-args", "--unwindset", ",".join(pairs)]
+            if "--cbmc-args" in cmd:
+                cmd += ["--unwindset", ",".join(pairs)]
+            else:
+                cmd += ["--cbmc-args", "--unwindset", ",".join(pairs)]
         note = "unwindset=%s unmatched_rules=%s" % (",".join(pairs), unmatched)
     log_path = log_prefix + (".playback.log" if playback else ".log")
     rc, timed_out, wall = _run(cmd, env, HARNESS_DIR, ob.timeout, ob.mem_gb, log_path)
